@@ -366,6 +366,124 @@ func (a *ownAnalysis) lenLowerBoundKey(fc *FCFG, n ast.Node, stack []ast.Node, k
 			return true
 		})
 	}
+	// ... the same loop moved into a checking helper whose nil result lets the function go on:
+	// `if lerr := checkHandlerBindings(env, lbinds); lerr != nil { return lerr }`
+	if !strings.HasPrefix(key, "forall:") {
+		ast.Inspect(a.u.Decl.Body, func(m ast.Node) bool {
+			is, ok := m.(*ast.IfStmt)
+			if !ok || is.End() > n.Pos() || len(is.Body.List) == 0 {
+				return true
+			}
+			if _, isRet := is.Body.List[len(is.Body.List)-1].(*ast.ReturnStmt); !isRet {
+				return true
+			}
+			// the call whose result the condition tests against nil
+			var call *ast.CallExpr
+			var resObj types.Object
+			if as, ok := is.Init.(*ast.AssignStmt); ok && len(as.Lhs) == 1 && len(as.Rhs) == 1 {
+				call, _ = ast.Unparen(as.Rhs[0]).(*ast.CallExpr)
+				resObj = identObj(info, as.Lhs[0])
+			}
+			if call == nil || resObj == nil {
+				return true
+			}
+			be, ok := ast.Unparen(is.Cond).(*ast.BinaryExpr)
+			if !ok || be.Op != token.NEQ || identObj(info, be.X) != resObj || !isNilIdent(info, be.Y) {
+				return true
+			}
+			h := originOf(Callee(info, call))
+			hd := a.c.declOf[h]
+			if h == nil || hd == nil || hd.Body == nil || h.Pkg() != a.u.Obj.Pkg() {
+				return true
+			}
+			hu := FuncUnit{h, hd, a.c.pkgOf[hd]}
+			hps := paramObjs(hu)
+			for ai, arg := range call.Args {
+				if ai >= len(hps) {
+					break
+				}
+				skey0 := a.resolvedKey(arg, 0)
+				if skey0 == "" {
+					continue
+				}
+				applies := false
+				// the helper receives the VALUE and ranges over its cells: the sequence is <value>.Cells
+				for _, skey := range []string{skey0 + ".Cells", skey0} {
+					if key == skey+".[]" {
+						applies = true
+					}
+					for i := 0; i < 8 && !applies; i++ {
+						applies = key == fmt.Sprintf("%s.[%d]", skey, i)
+					}
+					for i := len(stack) - 1; i >= 0 && !applies; i-- {
+						rs2, ok := stack[i].(*ast.RangeStmt)
+						if !ok || rs2.Value == nil || a.resolvedKey(rs2.Value, 0) != key {
+							continue
+						}
+						if a.resolvedKey(rs2.X, 0) == skey {
+							applies = true
+						} else if sl, ok := ast.Unparen(rs2.X).(*ast.SliceExpr); ok && a.resolvedKey(sl.X, 0) == skey {
+							applies = true
+						}
+					}
+				}
+				if !applies {
+					continue
+				}
+				ha := newOwnAnalysis(a.c, hu)
+				hinfo := hu.Pkg.TypesInfo
+				// the helper answers nil only by falling off the end of its checks
+				nilOnlyLast := true
+				rets := returnsOf(hd.Body)
+				for i, r := range rets {
+					if len(r.Results) == 1 && isNilIdent(hinfo, r.Results[0]) && i != len(rets)-1 {
+						nilOnlyLast = false
+					}
+				}
+				if !nilOnlyLast {
+					continue
+				}
+				ast.Inspect(hd.Body, func(k ast.Node) bool {
+					rs, ok := k.(*ast.RangeStmt)
+					if !ok || rs.Value == nil {
+						return true
+					}
+					// ranges over the parameter's cells
+					if ha.resolvedKey(rs.X, 0) != hps[ai].Name()+".Cells" && !strings.HasPrefix(ha.resolvedKey(rs.X, 0), "$") {
+						if se, ok := ast.Unparen(rs.X).(*ast.SelectorExpr); !ok || identObj(hinfo, se.X) != hps[ai] {
+							return true
+						}
+					}
+					early := false
+					ast.Inspect(rs.Body, func(q ast.Node) bool {
+						if br, ok := q.(*ast.BranchStmt); ok && (br.Tok == token.BREAK || br.Tok == token.GOTO || br.Tok == token.CONTINUE) {
+							early = true
+						}
+						return true
+					})
+					if early {
+						return true
+					}
+					xkey := ha.resolvedKey(rs.Value, 0)
+					for _, st := range rs.Body.List {
+						his, ok := st.(*ast.IfStmt)
+						if !ok || his.Else != nil || len(his.Body.List) == 0 {
+							continue
+						}
+						hr, isRet := his.Body.List[len(his.Body.List)-1].(*ast.ReturnStmt)
+						if !isRet || len(hr.Results) != 1 || isNilIdent(hinfo, hr.Results[0]) {
+							continue
+						}
+						if sub := ha.guardBound(his.Cond, xkey); sub > lb {
+							lb = sub
+						}
+					}
+					return true
+				})
+			}
+			return true
+		})
+	}
 	apply := func(at LitAtom) {
 		be, ok := ast.Unparen(at.E).(*ast.BinaryExpr)
 		if !ok {
